@@ -100,7 +100,11 @@ func (n *NameTrie[V]) HasChildren() bool {
 func (n *NameTrie[V]) Delete() {
 	if n.par != nil {
 		n.chd = nil
-		delete(n.par.chd, n.key)
+		// only unlink this very node: a node that was already detached must not
+		// remove the live node that has taken its key since
+		if n.par.chd[n.key] == n {
+			delete(n.par.chd, n.key)
+		}
 		if len(n.par.chd) == 0 {
 			n.par.Delete()
 		}
@@ -118,6 +122,9 @@ func (n *NameTrie[V]) DeleteIf(pred func(V) bool) {
 		return
 	}
 	if n.par != nil {
+		if n.par.chd[n.key] != n {
+			return // already detached: the key may belong to a live node now
+		}
 		delete(n.par.chd, n.key)
 		n.par.DeleteIf(pred)
 	}
